@@ -445,6 +445,11 @@ Emit == Complete =>
                                    [f |-> <<B01(OptSeq[i].ket), B01(OptSeq[i].kws), B01(OptSeq[i].kdoc)>>,
                                     o |-> Enc(MachineOut(toks, OptSeq[i]))]]])>>)
 EmitToks == Complete => PrintT(<<"GEN", ToJson([t |-> Enc(toks), o |-> <<>>])>>)
+(* one eighth of the complete states, chosen by a checksum of the token sequence (deterministic) *)
+KCode(k) == CASE k = "S" -> 1 [] k = "E" -> 2 [] k = "T" -> 3 [] OTHER -> 5
+Checksum == FoldLeft(LAMBDA a, i : (a * 3 + i * (KCode(toks[i].k) + Len(toks[i].x) + (IF toks[i].h THEN 7 ELSE 0))) % 1009,
+                     0, [i \in 1..Len(toks) |-> i])
+EmitSample == Complete /\ Checksum % 8 = 0 => PrintT(<<"GEN", ToJson([t |-> Enc(toks), o |-> <<>>])>>)
 
 AllOpts == [ket : BOOLEAN, kws : BOOLEAN, kdoc : BOOLEAN]
 Opts4 == {[ket |-> FALSE, kws |-> FALSE, kdoc |-> FALSE], [ket |-> TRUE, kws |-> FALSE, kdoc |-> FALSE],
